@@ -29,9 +29,41 @@ package scen
 // A key whose last accepting operation IS followed by a stop may or may not be
 // advertised in either semantics (StopProviding removes queued provides), so
 // nothing is demanded for it.
+//
+// Scenario "buffered-restart" (same body, one more tape-chosen step): after a
+// drawn number of operations has been submitted the wrapper is closed - with
+// whatever the schedule left in its queue, typically a backlog accepted while
+// the worker was held at the gate - and a NEW wrapper is created on the same
+// datastore and queue name in front of a restarted provider (same datastore,
+// resume). The remaining operations, often none, are submitted to the new
+// wrapper. Clauses: "work still queued at Close is resumed after a restart" and
+// "the buffered wrapper applies queued start/stop operations with the same
+// final effect as applying them one by one": the same three rules are judged
+// at the end, i.e. the operations that were accepted before the shutdown have
+// been applied within the drain time (first-advertisement bound, 10 min of
+// virtual time, plus the time the schedule took) after the restart, whether
+// or not anything new is submitted.
+// The calls of the batch the worker was executing when Close was called (the
+// call held at the gate and the calls the worker makes after it, all logged by
+// the gate) reach a provider that is already shutting down: Close closes the
+// queue and the provider before it waits for the worker. Those operations
+// were accepted, are no longer in the queue and take no effect. That is the
+// separate rule
+//   buffered-close-drops-batch   (same two clauses; genuine finding, see the
+//                                 report / known_findings.json)
+// and, so that it does not mask anything else, the three rules above judge a
+// key named by one of those calls only as far as operations submitted after
+// the restart determine its state.
+//   buffered-restart-reorder     label of buffered-keystore / -advertised
+//                                 violations (same clauses; genuine finding in
+//                                 the queue the wrapper is built on): every key
+//                                 that differs had an operation submitted after
+//                                 the restart stored in front of an older,
+//                                 persisted operation on it - c17BufReorderScan
 
 import (
 	"context"
+	"encoding/base64"
 	"fmt"
 	"sort"
 	"strings"
@@ -48,6 +80,11 @@ import (
 )
 
 func init() {
+	sim.Register(&sim.Scenario{Prop: "C17", Name: "buffered-restart", Weight: 1, Run: func(s *sim.Sim) { runC17BufferedX(s, true) },
+		Real:   []string{"provider/buffered.SweepingProvider (worker, getOperations coalescing, Close, start-up on a used datastore)", "go-dsqueue (on simds; persisted at Close, read back by the next instance)", "provider.SweepingProvider + keystore (as in scenario sweep; restarted on the same datastore)"},
+		Stub:   []string{"gate between wrapper and provider (pass-through, parks in the scheduler: batch boundaries are schedule choices)", "router / message sender / datastore as in scenario sweep"},
+		Faults: []string{"time_advance", "restart", "probe_buf_batch_multi_op", "probe_buf_queue_on_datastore", "probe_buf_restart_backlog", "probe_buf_restart_backlog_no_new_op", "probe_buf_restart_worker_held", "probe_buf_backlog_applied"},
+	})
 	sim.Register(&sim.Scenario{Prop: "C17", Name: "buffered", Weight: 1, Run: runC17Buffered,
 		Real:   []string{"provider/buffered.SweepingProvider (worker, getOperations coalescing)", "go-dsqueue (on simds)", "provider.SweepingProvider + keystore (as in scenario sweep)"},
 		Stub:   []string{"gate between wrapper and provider (pass-through, parks in the scheduler: batch boundaries are schedule choices)", "router / message sender / datastore as in scenario sweep"},
@@ -64,6 +101,11 @@ type c17Gate struct {
 	rank  int // rank of the previous call within the wrapper's fixed execution order
 	// what the wrapper executed, batch by batch (worker goroutine only)
 	batches [][]string
+	// closing is set by the simulator before it closes the wrapper (the worker is
+	// idle or held at the gate then); lost collects the keys of the calls the
+	// worker makes from then on
+	closing bool
+	lost    []mh.Multihash
 }
 
 func (g *c17Gate) gate(kind string, rank int, keys []mh.Multihash) {
@@ -83,6 +125,9 @@ func (g *c17Gate) gate(kind string, rank int, keys []mh.Multihash) {
 	g.batches[len(g.batches)-1] = append(g.batches[len(g.batches)-1], entry)
 	if g.every || newBatch {
 		g.h.s.Park("bufop", fmt.Sprintf("%s:%03d", kind, g.seq), nil, nil)
+	}
+	if g.closing {
+		g.lost = append(g.lost, keys...)
 	}
 	g.seq++
 }
@@ -108,7 +153,14 @@ func (g *c17Gate) StopProviding(keys ...mh.Multihash) error {
 
 func (g *c17Gate) Clear() int             { return g.inner.Clear() }
 func (g *c17Gate) RefreshSchedule() error { return g.inner.RefreshSchedule() }
-func (g *c17Gate) Close() error           { return g.inner.Close() }
+
+// Close parks like every other call: what the worker's last call started in
+// the provider (its provide loop) runs as far as it can before the provider is
+// closed, instead of racing its Close.
+func (g *c17Gate) Close() error {
+	g.h.s.Park("bufop", fmt.Sprintf("close:%03d", g.seq), nil, nil)
+	return g.inner.Close()
+}
 
 type c17BufOp struct {
 	kind  string // start force once stop
@@ -117,7 +169,11 @@ type c17BufOp struct {
 	batch int
 }
 
-func runC17Buffered(s *sim.Sim) {
+func runC17Buffered(s *sim.Sim) { runC17BufferedX(s, false) }
+
+// runC17BufferedX is the body of the scenarios buffered (withRestart false: no
+// draw is added, recorded schedules keep their meaning) and buffered-restart.
+func runC17BufferedX(s *sim.Sim, withRestart bool) {
 	c17InitPools()
 	c := genC17Cfg(s, false)
 	// small instances: the property is about coalescing, not about scale
@@ -148,7 +204,21 @@ func runC17Buffered(s *sim.Sim) {
 	// far as they can before the next call, which is reproducible.
 	every := true
 	nOps := s.Range("buf-ops", 1, 14)
-	s.Summary["cfg"] = fmt.Sprintf("%s | buffered: batchSize=%d idleWrite=%v gateEvery=%v ops=%d", c.String(), batchSize, idleWrite, every, nOps)
+	// the wrapper is closed and re-created once restartAfter operations have been
+	// submitted; half of the time that is after the last one (nothing new arrives
+	// after the restart)
+	restartAfter := -1
+	if withRestart {
+		restartAfter = nOps
+		if s.Chance("buf-restart-mid", 1, 2) {
+			restartAfter = s.Range("buf-restart-after", 1, nOps)
+		}
+	}
+	cfgLine := fmt.Sprintf("%s | buffered: batchSize=%d idleWrite=%v gateEvery=%v ops=%d", c.String(), batchSize, idleWrite, every, nOps)
+	if withRestart {
+		cfgLine += fmt.Sprintf(" restartAfter=%d", restartAfter)
+	}
+	s.Summary["cfg"] = cfgLine
 	s.Tracef("cfg %s", s.Summary["cfg"])
 
 	h, restore := newC17H(s, c)
@@ -166,15 +236,26 @@ func runC17Buffered(s *sim.Sim) {
 		return
 	}
 
-	gate := &c17Gate{h: h, inner: h.prov, every: every}
+	var gate *c17Gate
+	var gates []*c17Gate
 	var bp *buffered.SweepingProvider
-	op := h.ops.Go(s, "buffered.New", func() (any, error) {
-		bp = buffered.New(gate, namespace.Wrap(h.ds, dsapi.NewKey("/buf")), buffered.WithBatchSize(batchSize), buffered.WithIdleWriteTime(idleWrite))
-		return nil, nil
-	})
-	s.Quiesce()
-	if !op.Done || bp == nil {
-		s.Violate("buffered-setup", "buffered.New did not return")
+	newWrapper := func() bool {
+		g := &c17Gate{h: h, inner: h.prov, every: every}
+		var nb *buffered.SweepingProvider
+		op := h.ops.Go(s, "buffered.New", func() (any, error) {
+			nb = buffered.New(g, namespace.Wrap(h.ds, dsapi.NewKey("/buf")), buffered.WithBatchSize(batchSize), buffered.WithIdleWriteTime(idleWrite))
+			return nil, nil
+		})
+		s.Quiesce()
+		if !op.Done || nb == nil {
+			s.Violate("buffered-setup", "buffered.New did not return")
+			return false
+		}
+		gate, bp = g, nb
+		gates = append(gates, g)
+		return true
+	}
+	if !newWrapper() {
 		s.Finish()
 		return
 	}
@@ -235,7 +316,15 @@ func runC17Buffered(s *sim.Sim) {
 		})
 		o.done = ok
 	}
+	// (buffered-restart) queue entries found on the datastore at the restart,
+	// and the keys for which an entry written after the restart is stored in
+	// front of one of them - see c17BufReorderScan
+	var oldEntries map[string]bool
+	reordered := map[int]bool{}
 	release := func() bool {
+		if oldEntries != nil {
+			c17BufReorderScan(h, oldEntries, reordered)
+		}
 		ps := s.ParkedKind("bufop")
 		if len(ps) == 0 {
 			return false
@@ -248,7 +337,87 @@ func runC17Buffered(s *sim.Sim) {
 			for _, p := range s.Parked() {
 				ids = append(ids, p.ID)
 			}
-			s.Tracef("  parked after release: %s | executed so far %s", strings.Join(ids, " "), c17Batches(gate))
+			s.Tracef("  parked after release: %s | executed so far %s", strings.Join(ids, " "), c17Batches(gates))
+		}
+		return true
+	}
+
+	// restart: close the wrapper (it closes the provider behind the gate) with
+	// whatever is queued, restart the provider on the same datastore and put a
+	// new wrapper with the same queue name in front of it.
+	restarted := false
+	uncertain := map[int]bool{}     // keys named by the calls of the batch in execution at Close
+	uncertainMust := map[int]bool{} // ... that the full reference wants advertised
+	var inflightLost []string
+	backlogAtRestart := 0
+	restart := func(workerHeld bool) bool {
+		s.Tracef("step restart submitted=%d worker-held=%v", next, workerHeld)
+		s.Count("restart")
+		if workerHeld {
+			s.Count("probe_buf_restart_worker_held")
+		} else {
+			s.Count("probe_buf_restart_idle")
+		}
+		gate.closing = true
+		ks, old := h.ks, bp
+		if !h.closeWith(func() error {
+			err := old.Close() // closes the inner provider through the gate
+			if ks != nil {
+				_ = ks.Close()
+			}
+			return err
+		}) {
+			return false
+		}
+		h.observe()
+		for _, m := range gate.lost {
+			if k := h.byMh[string(m)]; k != nil {
+				uncertain[k.idx] = true
+			}
+		}
+		// what Close left of the wrapper's queue on the datastore
+		oldEntries = map[string]bool{}
+		for k := range h.ds.Snapshot() {
+			if strings.HasPrefix(k, "/buf/dsq-") {
+				backlogAtRestart++
+				oldEntries[k] = true
+			}
+		}
+		if backlogAtRestart > 0 {
+			s.Count("probe_buf_restart_backlog")
+			if next >= len(ops) {
+				s.Count("probe_buf_restart_backlog_no_new_op")
+			}
+		}
+		var un []string
+		for _, k := range h.keys {
+			if uncertain[k.idx] {
+				un = append(un, k.name)
+			}
+		}
+		s.Tracef("  closed: %d queue entries on the datastore, batch in execution named {%s}", backlogAtRestart, strings.Join(un, ","))
+		// bookkeeping of the sweep oracle, as in its restart step: rounds cut short
+		// by Close are not judged; nothing is in flight now
+		for _, k := range h.keys {
+			k.all, k.ok, k.spanning = nil, nil, false
+			k.pendingFirst, k.resumePending, k.owed = false, false, false
+			k.catchDue, k.promptDue = -1, -1
+			k.validBefore = false
+		}
+		h.cleanSince, h.cleanCut, h.winSendOnly = -1, false, false
+		h.dirty, h.held = true, false
+		h.chain++
+		h.newProvider()
+		if h.stop {
+			return false
+		}
+		h.settle()
+		if h.sut.Load() != c17Online {
+			s.Violate("buffered-setup", "the restarted inner provider did not come online")
+			return false
+		}
+		if !newWrapper() {
+			return false
 		}
 		return true
 	}
@@ -260,6 +429,16 @@ func runC17Buffered(s *sim.Sim) {
 			break
 		}
 		parked := len(s.ParkedKind("bufop")) > 0
+		if oldEntries != nil {
+			c17BufReorderScan(h, oldEntries, reordered)
+		}
+		if withRestart && !restarted && next >= restartAfter {
+			restarted = true
+			if !restart(parked) {
+				break
+			}
+			continue
+		}
 		if next >= len(ops) {
 			break
 		}
@@ -312,16 +491,54 @@ func runC17Buffered(s *sim.Sim) {
 		h.emitStep()
 	}
 
-	if !s.Failed() && !h.stop && next >= len(ops) {
+	if !s.Failed() && !h.stop && next >= len(ops) && (restarted || !withRestart) {
 		// what the wrapper executed
-		total := 0
-		for _, b := range gate.batches {
-			total += len(b)
-			if len(b) > 1 {
-				s.Count("probe_buf_batch_multi_op")
+		total, nBatches := 0, 0
+		for _, g := range gates {
+			for _, b := range g.batches {
+				nBatches++
+				total += len(b)
+				if len(b) > 1 {
+					s.Count("probe_buf_batch_multi_op")
+				}
 			}
 		}
-		c17BufferedProbes(s, ops, batchSize, gate)
+		c17BufferedProbes(s, ops, batchSize, gates)
+		if restarted && backlogAtRestart > 0 && restartAfter >= len(ops) && len(gate.batches) > 0 {
+			// nothing was submitted after the restart and the new worker made calls
+			s.Count("probe_buf_backlog_applied")
+		}
+		// Keys named by the batch that was in execution at Close: their state is
+		// judged only as far as the operations submitted after the restart
+		// determine it (see the header).
+		detKept := map[int]bool{} // keystore membership determined after the restart
+		if len(uncertain) > 0 {
+			mustU := map[int]bool{}
+			for _, o := range ops[restartAfter:] {
+				for _, k := range o.keys {
+					if !uncertain[k.idx] {
+						continue
+					}
+					switch o.kind {
+					case "start":
+						detKept[k.idx] = true // (advertised or not depends on what the keystore held)
+					case "force":
+						detKept[k.idx], mustU[k.idx] = true, true
+					case "once":
+						mustU[k.idx] = true
+					case "stop":
+						detKept[k.idx] = false
+						delete(mustU, k.idx)
+					}
+				}
+			}
+			for i := range uncertain {
+				if must[i] && !mustU[i] {
+					delete(must, i)
+					uncertainMust[i] = true
+				}
+			}
+		}
 
 		// final keystore content (public Keystore API, client goroutine)
 		var got []mh.Multihash
@@ -344,7 +561,17 @@ func runC17Buffered(s *sim.Sim) {
 				}
 			}
 			var want, is []string
+			onlyReordered := true
 			for _, k := range h.keys {
+				if ref[k.idx] != have[k.idx] && !reordered[k.idx] {
+					onlyReordered = false
+				}
+				if _, det := detKept[k.idx]; uncertain[k.idx] && !det {
+					if ref[k.idx] != have[k.idx] {
+						inflightLost = append(inflightLost, k.name)
+					}
+					continue
+				}
 				if ref[k.idx] {
 					want = append(want, k.name)
 				}
@@ -352,8 +579,11 @@ func runC17Buffered(s *sim.Sim) {
 					is = append(is, k.name)
 				}
 			}
-			if strings.Join(want, ",") != strings.Join(is, ",") {
-				s.Violate("buffered-keystore", "final keystore content {%s}; applying the %d operations one by one gives {%s} (wrapper executed %s)", strings.Join(is, ","), len(ops), strings.Join(want, ","), c17Batches(gate))
+			if strings.Join(want, ",") != strings.Join(is, ",") && onlyReordered {
+				// label of the open finding buffered-restart-reorder (see c17BufReorderScan)
+				h.violatePending("buffered-restart-reorder", "final keystore content {%s}; applying the %d operations one by one gives {%s}; for every key that differs, an operation submitted AFTER the restart was stored in the queue's datastore in front of an older operation on the same key that the previous run had persisted at Close (the new queue instance numbers its entries from zero again), and was executed before it (wrapper executed %s)", strings.Join(is, ","), len(ops), strings.Join(want, ","), c17Batches(gates))
+			} else if strings.Join(want, ",") != strings.Join(is, ",") {
+				s.Violate("buffered-keystore", "final keystore content {%s}; applying the %d operations one by one gives {%s} (wrapper executed %s)", strings.Join(is, ","), len(ops), strings.Join(want, ","), c17Batches(gates))
 			}
 			s.Tracef("final keystore {%s}", strings.Join(is, ","))
 		}
@@ -368,8 +598,13 @@ func runC17Buffered(s *sim.Sim) {
 		}
 		var advMust []string
 		for _, k := range h.keys {
-			if must[k.idx] && !adv[k.idx] {
-				s.Violate("buffered-advertised", "%s was never advertised although its last accepting operation is not followed by a stop (operations: %s; wrapper executed %s)", k.name, c17OpList(ops), c17Batches(gate))
+			if uncertainMust[k.idx] && !adv[k.idx] && !strings.Contains(","+strings.Join(inflightLost, ",")+",", ","+k.name+",") {
+				inflightLost = append(inflightLost, k.name)
+			}
+			if must[k.idx] && !adv[k.idx] && reordered[k.idx] {
+				h.violatePending("buffered-restart-reorder", "%s was never advertised although its last accepting operation is not followed by a stop; an operation on it submitted AFTER the restart was stored in the queue's datastore in front of an older operation on it that the previous run had persisted at Close, and was executed before it (operations: %s; wrapper executed %s)", k.name, c17OpList(ops), c17Batches(gates))
+			} else if must[k.idx] && !adv[k.idx] {
+				s.Violate("buffered-advertised", "%s was never advertised although its last accepting operation is not followed by a stop (operations: %s; wrapper executed %s)", k.name, c17OpList(ops), c17Batches(gates))
 			}
 			if adv[k.idx] && !accepted[k.idx] {
 				s.Violate("buffered-phantom", "%s was advertised although no StartProviding/ProvideOnce named it", k.name)
@@ -379,8 +614,19 @@ func runC17Buffered(s *sim.Sim) {
 			}
 		}
 		s.Tracef("final advertised(must) {%s}", strings.Join(advMust, ","))
-		s.State("bufops=%d batches=%d kept=%d", len(ops), len(gate.batches), len(ref))
-		s.NonTrivial = len(gate.batches) > 0 && total > len(gate.batches)
+		if len(inflightLost) > 0 {
+			// rule buffered-close-drops-batch: operations of the batch that was in
+			// execution when Close was called did not take effect
+			s.Count("probe_buf_inflight_batch_lost")
+			{
+				h.violatePending("buffered-close-drops-batch", "operations on {%s} were accepted before Close, taken out of the queue by the worker and handed to a provider that was already shutting down: they took no effect and are not in the queue of the next run (operations: %s; wrapper executed %s)", strings.Join(inflightLost, ","), c17OpList(ops), c17Batches(gates))
+			}
+		}
+		s.State("bufops=%d batches=%d kept=%d restart=%v backlog=%d", len(ops), nBatches, len(ref), restarted, backlogAtRestart)
+		s.NonTrivial = nBatches > 0 && total > nBatches
+		if withRestart {
+			s.NonTrivial = backlogAtRestart > 0
+		}
 	}
 	if s.Steps > s.MaxSteps {
 		s.Count("step_budget_exhausted")
@@ -400,8 +646,12 @@ func runC17Buffered(s *sim.Sim) {
 
 // c17BufferedProbes counts which coalescing situations a run reached, from
 // the submitted sequence and the batch boundaries the wrapper actually used.
-func c17BufferedProbes(s *sim.Sim, ops []*c17BufOp, batchSize int, g *c17Gate) {
-	for _, b := range g.batches {
+func c17BufferedProbes(s *sim.Sim, ops []*c17BufOp, batchSize int, gs []*c17Gate) {
+	var batches [][]string
+	for _, g := range gs {
+		batches = append(batches, g.batches...)
+	}
+	for _, b := range batches {
 		n := 0
 		kinds := map[string]map[string]bool{}
 		for _, e := range b {
@@ -457,10 +707,15 @@ func c17OpList(ops []*c17BufOp) string {
 	return strings.Join(out, " ")
 }
 
-func c17Batches(g *c17Gate) string {
+func c17Batches(gs []*c17Gate) string {
 	var out []string
-	for _, b := range g.batches {
-		out = append(out, "["+strings.Join(b, " ")+"]")
+	for i, g := range gs {
+		if i > 0 {
+			out = append(out, "| restart |")
+		}
+		for _, b := range g.batches {
+			out = append(out, "["+strings.Join(b, " ")+"]")
+		}
 	}
 	return strings.Join(out, " ")
 }
@@ -475,4 +730,41 @@ func (h *c17H) pickKeysMax(label string, maxN int) []*c17Key {
 		out = append(out, h.keys[(off+i)%len(h.keys)])
 	}
 	return out
+}
+
+// c17BufReorderScan looks at the wrapper's queue on the datastore (label of
+// the open finding buffered-restart-reorder; decides nothing). The queue is
+// read back in datastore key order. old holds the entries the previous run
+// persisted at Close; when an entry written after the restart sorts in front
+// of one of them and both carry an operation on the same key, the key is
+// marked: the newer operation will be executed before the older one.
+func c17BufReorderScan(h *c17H, old map[string]bool, out map[int]bool) {
+	var olds, news []string
+	for k := range h.ds.Snapshot() {
+		if !strings.HasPrefix(k, "/buf/dsq-") {
+			continue
+		}
+		if old[k] {
+			olds = append(olds, k)
+		} else {
+			news = append(news, k)
+		}
+	}
+	keyOf := func(entry string) *c17Key {
+		item, err := base64.RawURLEncoding.DecodeString(entry[strings.LastIndexByte(entry, '/')+1:])
+		if err != nil || len(item) < 2 {
+			return nil
+		}
+		return h.byMh[string(item[1:])]
+	}
+	for _, n := range news {
+		for _, o := range olds {
+			if n < o {
+				if kn := keyOf(n); kn != nil && kn == keyOf(o) && !out[kn.idx] {
+					out[kn.idx] = true
+					h.s.Count("probe_buf_restart_reorder")
+				}
+			}
+		}
+	}
 }
